@@ -251,6 +251,7 @@ static string show(const string& t) {
 }
 
 // all top-level clauses of the statement on one text; returns 1 on a violation
+static bool g_quiet = false;
 static int check_text(const string& text) {
   int bad = 0;
   // reference, strict RFC 8259
@@ -271,7 +272,7 @@ static int check_text(const string& text) {
     Real rs = run_string(text, de);
     Real rr = run_reader(text, de);
     const char* mode = de ? "strict" : "default";
-    printf("text '%s' (%zu bytes) %s: string entry -> %s %s; reader entry -> %s, consumed %zu\n", show(text).c_str(), text.size(), mode, oname(rs.o),
+    if (!g_quiet) printf("text '%s' (%zu bytes) %s: string entry -> %s %s; reader entry -> %s, consumed %zu\n", show(text).c_str(), text.size(), mode, oname(rs.o),
            rs.o == OK ? rs.v.serialize().c_str() : rs.what.c_str(), oname(rr.o), rr.consumed);
     if (rs.o == OTHER || rr.o == OTHER) {
       printf("POSTCONDITION VIOLATED on the real code: only parse_error / out_of_range may escape; got %s\n", (rs.o == OTHER ? rs : rr).what.c_str());
@@ -286,8 +287,19 @@ static int check_text(const string& text) {
         printf("POSTCONDITION VIOLATED on the real code: reader entry consumed %zu bytes, the value's extent is %zu\n", rr.consumed, ref_extent); bad = 1;
       }
     }
-    if (ref_ok && !ref_whole && ref_in_range && rs.o == OK && !(ext_ok && ext_whole && !de)) {
-      printf("POSTCONDITION VIOLATED on the real code: trailing data after a value accepted by the string entry point in %s mode\n", mode); bad = 1;
+    // string entry = reader entry + "only whitespace (and, with extensions, comments) may follow"
+    if (rr.o == OK && rr.consumed <= text.size()) {
+      Ref tail(text, !de);
+      tail.p = rr.consumed;
+      tail.ws();
+      bool only_ws = tail.p == text.size();
+      bool lone_slash = !de && tail.p + 1 == text.size() && text[tail.p] == '/';      // observation: look-ahead of the comment scanner throws out_of_range
+      if (!only_ws && rs.o == OK) { printf("POSTCONDITION VIOLATED on the real code: trailing data after a value accepted by the string entry point in %s mode\n", mode); bad = 1; }
+      if (!only_ws && rs.o != PARSE_ERROR && rs.o != OK && !lone_slash) { printf("POSTCONDITION VIOLATED on the real code: trailing data rejected with %s instead of parse_error\n", oname(rs.o)); bad = 1; }
+      if (only_ws && rs.o != OK) { printf("POSTCONDITION VIOLATED on the real code: string entry point rejects (%s) although only whitespace follows the value\n", oname(rs.o)); bad = 1; }
+    }
+    if (de && rr.o == OK && !ref_ok && ext_ok && ext_used && ext_in_range) {
+      printf("POSTCONDITION VIOLATED on the real code: strict mode (reader entry) accepts a value that needs a documented extension\n"); bad = 1;
     }
     if (ext_ok && ext_whole && ext_used && ext_in_range) {     // uses a documented extension
       if (de && rs.o == OK) { printf("POSTCONDITION VIOLATED on the real code: strict mode accepts a documented extension\n"); bad = 1; }
@@ -299,9 +311,16 @@ static int check_text(const string& text) {
   return bad;
 }
 
-static string from_tokens(uint64_t tok, int nt, bool dict) {
+// containers: g_nt = number of tokens of the iteration | DFA state at the loop head << 8; g_tok = those tokens, 4 bits each, oldest first
+static string from_tokens(uint64_t tok, int packed, bool dict) {
+  int nt = packed & 0xFF, hq = (packed >> 8) & 0xFF;
   string t;
-  if (nt <= 0 || nt > 16) return t;
+  // a well-formed prefix that brings the parser to the state of the loop head (1 = after the opening bracket, 3 = after a comma, 5 = bad separator)
+  if (hq == 1) t = dict ? "{" : "[";
+  else if (hq == 3) t = dict ? "{\"k\":1," : "[1,";
+  else if (hq == 5) t = dict ? "{\"k\":1x" : "[1x";
+  if (nt > 16) nt = 16;
+  int prev = 0;
   for (int k = nt - 1; k >= 0; k--) {
     int code = (tok >> (4 * k)) & 0xF;
     switch (code) {
@@ -313,9 +332,10 @@ static string from_tokens(uint64_t tok, int nt, bool dict) {
       case 6: t += "\"k\""; break;
       case 7: t += "x"; break;
       case 8: return t;
-      case 9: t += "?"; break;
-      default: t += "?"; break;
+      case 9: if (!(prev == 2 || prev == 3 || prev == 4 || prev == 8)) t += "?"; break;   // a child called AT a structural byte fails without consuming
+      default: break;
     }
+    prev = code;
   }
   return t;
 }
@@ -324,21 +344,43 @@ int main(int argc, char** argv) {
   Args a(argc, argv);
   vector<string> texts;
   if (a.mode == "text" || a.mode == "number" || a.mode == "string") {
-    size_t n = a.has("in_size") ? a.u("in_size") : a.u("g_len");
+    // the eight input bytes of the VERIF_SMALL counterexample.  The length may be missing from the trace (formula slicing drops ghosts no
+    // obligation depends on) and callees are abstracted by their contracts in the proof (e.g. the whitespace scanner in the dispatcher
+    // group), so the value may start at a later cursor than the bytes in front of it justify: every sub-range of the bytes is a candidate
+    string all;
+    for (size_t k = 0; k < 8; k++) { char nm[8]; snprintf(nm, sizeof nm, "g_b%zu", k); all.push_back((char)a.u(nm)); }
+    size_t n = a.has("in_size") ? a.u("in_size") : a.has("g_len") ? a.u("g_len") : 8;
     if (n > 8) n = 8;
-    string t;
-    for (size_t k = 0; k < n; k++) { char nm[8]; snprintf(nm, sizeof nm, "g_b%zu", k); t.push_back((char)a.u(nm)); }
-    texts.push_back(t);
+    texts.push_back(all.substr(0, n));
+    for (size_t len = 8; len >= 1; len--)
+      for (size_t k = 0; k + len <= 8; k++) { string s = all.substr(k, len); bool dup = false; for (auto& x : texts) dup |= x == s; if (!dup) texts.push_back(s); }
     // counterexamples of loop-contract proofs pass through havocked loop states: the bytes need not drive the real code down the
     // same path; the witness texts of the defect classes of this branch are tried as well
     if (a.mode == "number") for (const char* w : {"5e-1", "1E+2", "1e30", "-2.5e3", "0x1F", "-0", "12.5"}) texts.push_back(w);
     if (a.mode == "string") for (const char* w : {"\"\\n\"", "\"\\u00e9\"", "\"\\u0100\"", "\"\\q\"", "\"a\\/b\""}) texts.push_back(w);
   } else if (a.mode == "list" || a.mode == "dict") {
     string t = from_tokens(a.u("g_tok"), (int)a.u("g_nt"), a.mode == "dict");
-    if (!t.empty()) texts.push_back(t);
-    // the same stream with blanks between the tokens (whitespace is allowed at every token boundary)
-    if (!t.empty()) { string s; for (char c : t) { s.push_back(c); if (c != '"' && c != 'k') s.push_back(' '); } texts.push_back(s); }
+    // the trace ends where the obligation failed: the text is also tried with continuations that complete the document
+    if (!t.empty())
+      for (const char* tail : {"", "}", "]", "2}", "2]", ":2}", "\"k\":2}", "1]"}) {
+        string u = t + tail;
+        texts.push_back(u);
+        // the same stream with blanks between the tokens (whitespace is allowed at every token boundary)
+        string s; for (char c : u) { s.push_back(c); if (c != '"' && c != 'k') s.push_back(' '); } texts.push_back(s);
+      }
     if (texts.empty()) texts = a.mode == "dict" ? vector<string>{"{}", "{ }", "{1:2}", "{\"a\":1,}", "{\"a\":1}"} : vector<string>{"[]", "[ ]", "[1,]", "[1]"};
+  } else if (a.mode == "selftest") {
+    // development aid: random short texts over a JSON-ish alphabet; on a tree without the defects the oracle must stay silent
+    const char alpha[] = "[]{},:\"\\ \n/0123456789-+.eExabcdfntrulsXF";
+    uint64_t s = a.u("seed", 1);
+    for (uint64_t k = 0; k < a.u("count", 20000); k++) {
+      s = s * 6364136223846793005ull + 1442695040888963407ull;
+      size_t len = (s >> 33) % 9;
+      string x;
+      uint64_t q = s;
+      for (size_t j = 0; j < len; j++) { q = q * 6364136223846793005ull + 1442695040888963407ull; x.push_back(alpha[(q >> 33) % (sizeof(alpha) - 1)]); }
+      texts.push_back(x);
+    }
   } else if (a.mode == "witness") {
     texts = {"{}", "[]", "5e-1", "1E+2", "{1:2}", "1e30"};
   } else {
@@ -346,6 +388,7 @@ int main(int argc, char** argv) {
     return 2;
   }
   int bad = 0;
-  for (auto& t : texts) bad |= check_text(t);
+  g_quiet = a.mode == "selftest";
+  for (auto& t : texts) { int b = check_text(t); if (b && g_quiet) printf("  ^ text '%s'\n", show(t).c_str()); bad |= b; }
   return bad;
 }
